@@ -725,6 +725,38 @@ fn check_case_inner(c: &Case) -> Outcome {
         variants.push(rotated);
     }
 
+    // Half of the cases: other goals are asked first on the same reasoner (a ground goal built from a stored fact, and
+    // the goal with its first constant position opened / its first variable position closed). Whatever a query leaves
+    // behind in the reasoner must not change the answers of the next one; their own answers are not judged here.
+    if c.goal_names.iter().map(|n| n.len()).sum::<usize>() % 2 == 0 {
+        o.class("other-goals-asked-first-on-the-same-reasoner");
+        let mut warm: Vec<Pat> = vec![];
+        if let Some(f) = c.facts.first() {
+            warm.push((T::C(f.0), T::C(f.1), T::C(f.2)));
+            let mut g = c.goal;
+            match g.0 {
+                T::C(_) => g.0 = T::V(0),
+                T::V(_) => g.0 = T::C(f.0),
+            }
+            warm.push(g);
+        }
+        for w in &warm {
+            // the same size bound as for the judged goal (the search tree of backward chaining can be exponential)
+            let mut probe = c.clone();
+            probe.goal = *w;
+            let (wcost, wnonground) = estimate_sld(&probe);
+            if wnonground || wcost > SLD_CUTOFF {
+                continue;
+            }
+            let goal = to_pattern(w, &neutral, &built.id_of);
+            if let Err(site) = catch(|| built.r.backward_chaining(&goal)) {
+                o.panic(&format!("backward_chaining{} (asked before the judged goal) on\n{}", fmt_goal(w, &neutral), fmt_program(c)), &site);
+                return o;
+            }
+            o.inner_evals += 1;
+        }
+    }
+
     let trace_start = std::time::Instant::now(); // diagnostics only (KVH_C18_TRACE), never a verdict
     let mut results: Vec<VariantResult> = vec![];
     for names in &variants {
